@@ -6,8 +6,10 @@ import (
 	"fmt"
 	"os"
 	"os/exec"
-	"runtime"
+
+	yamlv3c "gopkg.in/yaml.v3"
 	"path/filepath"
+	"runtime"
 	"runtime/debug"
 	"strconv"
 	"sync/atomic"
@@ -148,4 +150,12 @@ func pinnedCommand(name string, args ...string) *exec.Cmd {
 	idx, _ := shard()
 	cpu := (idx*7 + os.Getpid()) % runtime.NumCPU()
 	return exec.Command(tasksetPath, append([]string{"-c", strconv.Itoa(cpu), name}, args...)...)
+}
+
+// yamlUnmarshal decodes with gopkg.in/yaml.v3 (only used to classify inputs).
+func yamlUnmarshal(b []byte, v any) (err error) {
+	if e := catch(func() { err = yamlv3c.Unmarshal(b, v) }); e != nil {
+		return e
+	}
+	return err
 }
